@@ -449,3 +449,33 @@ def gen_history(rng, tier="quick", exact=None, allow=None, fees=None, nmax=None)
             ops.append(["nlv", 0])
     ops.append(["nlv", 0])
     return dict(contracts=contracts, fees=fees, deposit=deposit, exact=exact, ops=ops)
+
+
+def small_scope_histories(max_len=4):
+    """Every history of up to `max_len` operations over a small alphabet on two contracts (a spot asset and a
+    margined future with multiplier 2), exact (dyadic) prices with a spread, proportional fees: the bounded
+    part of the search for a failing input (it supports the correspondence, it is not the proof)."""
+    import itertools
+    contracts = [dict(key="S0", kind="ETF"), dict(key="F1", kind="user", mult="2", cashReq="0", mr="1/4")]
+    alphabet = [
+        ("q", "S0", "96", "98"), ("q", "S0", "104", "105"), ("q", "F1", "40", "41"), ("q", "F1", "60", "64"),
+        ("t", "S0", "2"), ("t", "S0", "-3"), ("t", "F1", "1"), ("t", "F1", "-2"), ("nlv",), ("weights",),
+    ]
+    out = []
+    for n in range(1, max_len + 1):
+        for seq in itertools.product(alphabet, repeat=n):
+            t = T0
+            ops = [["q", "S0", t, "100", "101"], ["q", "F1", t, "50", "52"]]
+            for i, a in enumerate(seq):
+                t = T0 + (i + 1) * 3600_000_000
+                if a[0] == "q":
+                    ops.append(["q", a[1], t, a[2], a[3]])
+                elif a[0] == "t":
+                    ops.append(["tradeq", a[1], a[2], t])
+                elif a[0] == "nlv":
+                    ops.append(["nlv", 0])
+                else:
+                    ops.append(["weights"])
+            ops.append(["nlv", 0])
+            out.append(dict(contracts=contracts, fees=["0", "1/1024", "0"], deposit="100000", exact=True, ops=ops))
+    return out
